@@ -41,41 +41,74 @@ theorem getElem?_set_self' {α : Type} (l : List α) (i : Nat) (a b : α) (h : l
     · rw [List.getElem?_eq_none h1] at h; cases h
   simp [hl]
 
-theorem setPendProd_get (n : Node) (i : Nat) (v : Sched) (x : DevX) (hx : n.ext[i]? = some x) :
-    (setPendProd n i v).ext[i]? = some { x with pendProd := v } := by
-  unfold setPendProd
+theorem updExt_get (n : Node) (i : Nat) (g : DevX → DevX) (x : DevX) (hx : n.ext[i]? = some x) :
+    (updExt n i g).ext[i]? = some (g x) := by
+  unfold updExt
   rw [hx]
   exact getElem?_set_self' _ _ _ _ hx
-
-theorem setPendConf_get (n : Node) (i : Nat) (v : Sched) (x : DevX) (hx : n.ext[i]? = some x) :
-    (setPendConf n i v).ext[i]? = some { x with pendConf := v } := by
-  unfold setPendConf
-  rw [hx]
-  exact getElem?_set_self' _ _ _ _ hx
-
-/-- the timer value after a send attempt: cleared when `SendMsg` succeeded, armed `187 + 8·source` ms ahead otherwise -/
-def armProd (s : St) (ok : Bool) (src : Nat) : Sched :=
-  if ok then Sched.disabled s.flavor else Sched.fromNow s.flavor s.now (187 + src * 8)
-
-/-- the same for the configuration information: `187 + 10·source` ms -/
-def armConf (s : St) (ok : Bool) (src : Nat) : Sched :=
-  if ok then Sched.disabled s.flavor else Sched.fromNow s.flavor s.now (187 + src * 10)
 
 theorem finishProd_get (n : Node) (i src : Nat) (m : Msg) (x : DevX) (hx : n.ext[i]? = some x) :
-    (finishProd n i src m).ext[i]? = some { x with pendProd := armProd n.st (sendMsg n.st m (some i)).2 src } := by
-  unfold armProd
-  unfold finishProd
-  by_cases hr : (sendMsg n.st m (some i)).2 = true
-  · simp only [hr, ↓reduceIte]; exact setPendProd_get _ _ _ _ hx
-  · simp only [hr, Bool.false_eq_true, ↓reduceIte]; exact setPendProd_get _ _ _ _ hx
+    (finishProd n i src m).ext[i]? = some (afterProd n.st (sendMsg n.st m (some i)).2 src x) :=
+  updExt_get _ _ _ _ hx
 
 theorem finishConf_get (n : Node) (i src : Nat) (m : Msg) (x : DevX) (hx : n.ext[i]? = some x) :
-    (finishConf n i src m).ext[i]? = some { x with pendConf := armConf n.st (sendMsg n.st m (some i)).2 src } := by
-  unfold armConf
-  unfold finishConf
-  by_cases hr : (sendMsg n.st m (some i)).2 = true
-  · simp only [hr, ↓reduceIte]; exact setPendConf_get _ _ _ _ hx
-  · simp only [hr, Bool.false_eq_true, ↓reduceIte]; exact setPendConf_get _ _ _ _ hx
+    (finishConf n i src m).ext[i]? = some (afterConf n.st (sendMsg n.st m (some i)).2 src x) :=
+  updExt_get _ _ _ _ hx
+
+/-! ## the `HasPendingInformation` flag -/
+
+/-- the flag says exactly whether a timer is armed -/
+def FlagOk (f : Flavor) (x : DevX) : Prop := x.hasPending = (x.pendProd.isEnabled f || x.pendConf.isEnabled f)
+
+/-- an armed timer is enabled (64-bit scheduler: unless the sum is the all-ones sentinel) -/
+theorem isEnabled_fromNow (f : Flavor) (now k : Nat) (h : f = .t64 → now + k < M64 - 1) :
+    (Sched.fromNow f now k).isEnabled f = true := by
+  cases f with
+  | t32 =>
+    simp only [Sched.fromNow, Sched.isEnabled, disabledVal, M32, millis32]
+    by_cases hs : (now % 4294967296 + k) % 4294967296 = 4294967296 - 1
+    · simp [hs]
+    · simp only [hs, ↓reduceIte]; simpa using hs
+  | t64 =>
+    have := h rfl
+    simp only [Sched.fromNow, Sched.isEnabled, disabledVal, M64] at *
+    rw [Nat.mod_eq_of_lt (by omega)]
+    simp; omega
+
+/-- the flag stays exact over `SendProductInformation`'s bookkeeping -/
+theorem flagOk_afterProd (s : St) (ok : Bool) (src : Nat) (x : DevX)
+    (h64 : s.flavor = .t64 → s.now + (187 + src * 8) < M64 - 1) : FlagOk s.flavor (afterProd s ok src x) := by
+  unfold afterProd FlagOk
+  cases ok with
+  | true => simp [updateHasPending]
+  | false => simp [isEnabled_fromNow s.flavor s.now _ h64]
+
+theorem flagOk_afterConf (s : St) (ok : Bool) (src : Nat) (x : DevX)
+    (h64 : s.flavor = .t64 → s.now + (187 + src * 10) < M64 - 1) : FlagOk s.flavor (afterConf s ok src x) := by
+  unfold afterConf FlagOk
+  cases ok with
+  | true => simp [updateHasPending]
+  | false => simp [isEnabled_fromNow s.flavor s.now _ h64]
+
+/-- a timer that is due is enabled (64-bit scheduler: the clock is below 2^64) -/
+theorem isEnabled_of_isTime (f : Flavor) (t : Sched) (now : Nat) (h64 : f = .t64 → now < M64)
+    (h : t.isTime f now = true) : t.isEnabled f = true := by
+  cases f with
+  | t32 => simp only [Sched.isTime, Bool.and_eq_true] at h; exact h.1
+  | t64 =>
+    have := h64 rfl
+    simp only [Sched.isTime, decide_eq_true_eq] at h
+    simp only [Sched.isEnabled, disabledVal, M64] at *
+    simp; omega
+
+/-- **the retry of the product information does not make the node forget the configuration information**: after the
+product-information step — whether its send succeeds or not — the flag is still set while the other timer is armed -/
+theorem afterProd_keeps_flag (s : St) (ok : Bool) (src : Nat) (x : DevX) (hc : x.pendConf.isEnabled s.flavor = true) :
+    (afterProd s ok src x).hasPending = true ∧ (afterProd s ok src x).pendConf = x.pendConf := by
+  unfold afterProd
+  cases ok with
+  | true => simp [updateHasPending, hc]
+  | false => simp
 
 /-! ## when an armed timer is due -/
 
@@ -102,15 +135,18 @@ theorem isTime_fromNow_t32_after (now k e : Nat) (he1 : 1 ≤ e) (he : e < 21474
 
 /-! ## the configuration-information retry comes after the product-information retry of the same poll -/
 
-theorem sendProductInformation_pendConf (n : Node) (i : Nat) (x : DevX) (hx : n.ext[i]? = some x) :
-    ∃ x', (sendProductInformation n i).1.ext[i]? = some x' ∧ x'.pendConf = x.pendConf := by
+theorem sendProductInformation_pendConf (n : Node) (i : Nat) (x : DevX) (hx : n.ext[i]? = some x)
+    (hc : x.pendConf.isEnabled n.st.flavor = true) (hf : x.hasPending = true) :
+    ∃ x', (sendProductInformation n i).1.ext[i]? = some x' ∧ x'.pendConf = x.pendConf ∧ x'.hasPending = true := by
   unfold sendProductInformation
   cases n.st.devs[i]? with
-  | none => exact ⟨x, hx, rfl⟩
+  | none => exact ⟨x, hx, rfl, hf⟩
   | some d =>
     cases resolveProd n.ext i with
-    | none => exact ⟨x, hx, rfl⟩
-    | some p => exact ⟨_, finishProd_get _ _ _ _ _ hx, rfl⟩
+    | none => exact ⟨x, hx, rfl, hf⟩
+    | some p =>
+      have := afterProd_keeps_flag n.st (sendMsg n.st (productMsg d p) (some i)).2 d.source x hc
+      exact ⟨_, finishProd_get _ _ _ _ _ hx, this.2, this.1⟩
 
 theorem confOrNak_congr (d d' : Dev) (c : Config) (h : d'.source = d.source) : confOrNak d' c = confOrNak d c := by
   simp [confOrNak, configMsg, confNakMsg, h]
@@ -127,15 +163,18 @@ theorem same_source (n n' : Node) (hs : Same n n') (i : Nat) (d : Dev) (hd : n.s
     simp only [Option.map_some, Option.some.injEq, key, Prod.mk.injEq] at hk
     exact ⟨d', rfl, hk.1⟩
 
+/-- a poll at which the configuration-information timer is due hands the configuration information to `SendMsg`,
+whatever happens to the product information in the same poll -/
 theorem pendingDev_conf (n : Node) (i : Nat) (d : Dev) (x : DevX) (hd : n.st.devs[i]? = some d) (hx : n.ext[i]? = some x)
+    (hf : x.hasPending = true) (h64 : n.st.flavor = .t64 → n.st.now < M64)
     (hdue : x.pendConf.isTime n.st.flavor n.st.now = true) :
     ∃ pre, (pendingDev n i).2 = pre ++ [⟨i, confOrNak d n.conf⟩] := by
+  have hen := isEnabled_of_isTime _ _ _ h64 hdue
   unfold pendingDev
-  simp only [andThen, hx]
-  -- the state after the product-information step
+  simp only [hx, hf, ↓reduceIte, andThen]
   have key1 : ∀ (a : Node × List OutMsg), Same n a.1 → (∃ x', a.1.ext[i]? = some x' ∧ x'.pendConf = x.pendConf) →
       ∃ pre, (a.2 ++ (match a.1.ext[i]? with
-        | some x => if x.pendConf.isTime a.1.st.flavor a.1.st.now then sendConfigurationInformation a.1 i else (a.1, [])
+        | some x1 => if x1.pendConf.isTime a.1.st.flavor a.1.st.now then sendConfigurationInformation a.1 i else (a.1, [])
         | none => (a.1, [])).2) = pre ++ [⟨i, confOrNak d n.conf⟩] := by
     intro a hs hx'
     obtain ⟨x', hx1, hx2⟩ := hx'
@@ -148,8 +187,27 @@ theorem pendingDev_conf (n : Node) (i : Nat) (d : Dev) (x : DevX) (hd : n.st.dev
     exact ⟨a.2, rfl⟩
   by_cases hp : x.pendProd.isTime n.st.flavor n.st.now = true
   · simp only [hp, ↓reduceIte]
-    exact key1 _ (sendProductInformation_same n i) (sendProductInformation_pendConf n i x hx)
+    obtain ⟨x', h1, h2, _⟩ := sendProductInformation_pendConf n i x hx hen hf
+    exact key1 _ (sendProductInformation_same n i) ⟨x', h1, h2⟩
   · simp only [hp]
     exact key1 (n, []) (Same.refl n) ⟨x, hx, rfl⟩
+
+/-- a poll at which only the product-information timer is due leaves the configuration-information timer armed AND the
+flag set, so that the next polls still look at this device -/
+theorem pendingDev_keeps_conf (n : Node) (i : Nat) (x : DevX) (hx : n.ext[i]? = some x) (hf : x.hasPending = true)
+    (hen : x.pendConf.isEnabled n.st.flavor = true) (hnd : x.pendConf.isTime n.st.flavor n.st.now = false) :
+    ∃ x', (pendingDev n i).1.ext[i]? = some x' ∧ x'.pendConf = x.pendConf ∧ x'.hasPending = true := by
+  unfold pendingDev
+  simp only [hx, hf, ↓reduceIte, andThen]
+  by_cases hp : x.pendProd.isTime n.st.flavor n.st.now = true
+  · simp only [hp, ↓reduceIte]
+    obtain ⟨x', h1, h2, h3⟩ := sendProductInformation_pendConf n i x hx hen hf
+    have hs := sendProductInformation_same n i
+    rw [h1]
+    simp only [h2, hs.1.1, hs.1.2.1, hnd]
+    exact ⟨x', h1, h2, h3⟩
+  · have hp' : x.pendProd.isTime n.st.flavor n.st.now = false := by simpa using hp
+    simp only [hp', Bool.false_eq_true, ↓reduceIte, hx, hnd]
+    exact ⟨x, rfl, rfl, hf⟩
 
 end N2k.IsoRequest
